@@ -15,12 +15,23 @@ Line-protocol driver for C02 (`sqfsmodel c02`).  One operation per input line, o
   xxh <hbits> <data-hex>        → <hex8>           (the checksum function the driver passes as `h`)
   sde <value-hex|none>           → <mtime>          (`get_source_date_epoch`, `Sqfs/Model/BuildEnv.lean`)
   mtime <sde-hex|none> <defaults-mtime|-> <keep 0|1> <input mtime> → <superblock mtime> <inode mtime>
+  runx <variant 0|1> <B> <mb> <bc> <hbits> <toy|none|toyf> <pre-hex> <nops> (f <flags-dec> <data-hex> | m <flags-dec> <data-hex> | s)×nops
+        an API script (`Sqfs/Model/BlockProcFail.lean`): `f` = a file, `m` = `sqfs_block_processor_submit_block`, `s` =
+        `sqfs_block_processor_sync`; variant 0 = current `sync`, 1 = repaired `sync` (returns the pool status);
+        codec `toyf` = the toy codec failing with SQFS_ERROR_COMPRESSOR on blocks that start with 0xEE, on the serial pool
+        → as `run`, or `err <C error code>`
+  hi <n> (<ret>:<hash-hex>/<ret>:<hash-hex>/<ret>:<hash-hex>/<rt 0|1>)×n
+        monitor `obsIndependent` (`Sqfs/Model/C02Worker.lean`) on what harness/h_c02_comp.c observed of a real compressor:
+        per block the result of the worker copy with its history / of a fresh compressor / of a fresh copy
+        → ok | dep <index of the first block that breaks history independence or copy = original>
+             | contract <index of the first block on which do_block failed or the codec contract (`obsContract`) is broken>
 -/
 import Driver.Util
 import Sqfs.Model.BlockProc
 import Sqfs.Spec.BlockProcSpec
 import Sqfs.Model.ToyCodec
 import Sqfs.Model.BuildEnv
+import Sqfs.Model.BlockProcFail
 namespace Driver.C02
 open Sqfs Sqfs.BlockProc
 
@@ -176,6 +187,71 @@ def stateOp (sy : Bool) (rest : List String) : String :=
       s!"ok backlog={s.backlog} ioq={s.ioQueue.length} seq={s.ioSeqNum} deq={s.ioDeqSeqNum} pending={s.pool.ser.queue.length} sub={s.pool.table.length} maxq={mq.2} inflight={s.fblkInFlight.length}"
     | .error e => "err " ++ showErr e
 
+
+/-! API scripts, failing compressor -/
+def marked (x : List UInt8) : Bool := x.head? == some 0xEE
+
+def parseOps : Nat → List String → Option (List ApiOp)
+  | 0, [] => some []
+  | 0, _ => none
+  | n + 1, "s" :: rest => do
+    let r ← parseOps n rest
+    pure (.sync :: r)
+  | n + 1, k :: fl :: d :: rest => do
+    let fl ← fl.toNat?
+    let d ← fromHexFast d
+    let r ← parseOps n rest
+    if k = "f" then pure (.file ⟨fl, d⟩ :: r) else if k = "m" then pure (.submit fl d :: r) else none
+  | _, _ => none
+
+def runxOp : List String → String
+  | v :: b :: mb :: bc :: hb :: codec :: pre :: nops :: rest =>
+    match v.toNat?, b.toNat?, mb.toNat?, bc.toNat?, hb.toNat?, fromHexFast pre, nops.toNat? with
+    | some v, some b, some mb, some bc, some hb, some pre, some nops =>
+      match parseOps nops rest with
+      | none => "bad-op"
+      | some ops =>
+        let cd : Option Codec := if codec = "toy" ∨ codec = "toyf" then some (ToyCodec.codec b) else if codec = "none" then some ToyCodec.ident else none
+        match cd with
+        | none => "bad-op"
+        | some cd =>
+          let P0 : Params := { B := b, codec := cd, h := weakXxh hb, byteCompare := bc != 0, pre := pre }
+          let P := if codec = "toyf" then failParams P0 marked (-(Sqfs.Consts.errCompressor : Int)) else P0
+          match runOps (v != 0) P mb ops with
+          | .ok o => showOutput o
+          | .error e => s!"err {e.code}"
+    | _, _, _, _, _, _, _ => "bad-op"
+  | _ => "bad-op"
+
+def parseRH (s : String) : Option (Int × Nat) :=
+  match s.splitOn ":" with
+  | [r, h] => do
+    let r ← r.toInt?
+    let hb ← fromHexFast h
+    pure (r, hb.foldl (fun a x => a * 256 + x.toNat) 0)
+  | _ => none
+
+def parseObs (s : String) : Option CompObs :=
+  match s.splitOn "/" with
+  | [a, b, c, rt] => do
+    let a ← parseRH a
+    let b ← parseRH b
+    let c ← parseRH c
+    pure ⟨a, b, c, rt = "1"⟩
+  | _ => none
+
+def hiOp : List String → String
+  | n :: rest =>
+    match n.toNat?, rest.mapM parseObs with
+    | some n, some obs =>
+      if obs.length ≠ n then "bad-op"
+      else match obsIndependent obs, obsContract obs with
+        | some i, _ => s!"dep {i}"
+        | none, some i => s!"contract {i}"
+        | none, none => "ok"
+    | _, _ => "bad-op"
+  | _ => "bad-op"
+
 def step (line : String) : String :=
   match words line with
   | "run" :: rest =>
@@ -199,6 +275,8 @@ def step (line : String) : String :=
       match packRef j.P j.files with
       | .ok o => showOutput o
       | .error e => "err " ++ showErr e
+  | "runx" :: rest => runxOp rest
+  | "hi" :: rest => hiOp rest
   | "state" :: rest => stateOp false rest
   | "states" :: rest => stateOp true rest
   | ["xxh", bits, d] =>
